@@ -24,7 +24,7 @@ STATE = ("state",)
 UNDEF = ("global", "_sentinels.py", "undefined")
 CO_TAG = ("global", "_compare_context.py", "_eq_check_only")
 MAX_DEPTH = 3
-MAX_TAG_DEPTH = 7
+MAX_TAG_DEPTH = 10
 
 FLAGS = ("create", "fix", "trim", "update")
 
@@ -35,10 +35,20 @@ def tag_depth(t) -> int:
     return 1 + max((tag_depth(x) for x in t), default=0)
 
 
-def clip(t):
-    if tag_depth(t) > MAX_TAG_DEPTH:
-        return ("other", "deep")
-    return t
+def clip(t, depth=0):
+    """Bound the tag depth; a clipped subtree keeps its identity through a digest,
+    so assumptions on distinct deep expressions are never conflated."""
+    if not isinstance(t, tuple):
+        return t
+    if depth >= MAX_TAG_DEPTH:
+        if tag_depth(t) <= 1:
+            return t
+        import hashlib
+
+        return ("deep", hashlib.md5(repr(t).encode()).hexdigest()[:10])
+    if tag_depth(t) + depth <= MAX_TAG_DEPTH:
+        return t
+    return tuple(clip(x, depth + 1) for x in t)
 
 
 def contains(t, sub) -> bool:
